@@ -295,6 +295,57 @@ pub fn c13_k_user_icon_multibyte_keep_or_drop() {
     kani::cover!(n == 130);
 }
 
+/// The helper is generic in the capacity: small capacities L with ANY valid UTF-8 text of up to 5 bytes (one to
+/// four-byte characters, symbolic): kept verbatim iff it has at most L BYTES, absent otherwise, never an error / panic.
+fn icon_case<const L: usize>() {
+    let buf: [u8; FCB_N] = kani::any();
+    let n: usize = kani::any();
+    kani::assume(n <= FCB_N);
+    if let Ok(s) = core::str::from_utf8(&buf[..n]) {
+        let d = BorrowedStrDeserializer::<ValueError>::new(s);
+        let r: Result<Option<String<L>>, ValueError> = deserialize_from_str_and_skip_if_too_long::<_, L>(d);
+        match r {
+            Ok(Some(kept)) => {
+                assert!(n <= L, "C13: an over-long icon was kept");
+                assert!(kept.len() == n, "C13: icon shortened");
+                let j: usize = kani::any();
+                if j < n {
+                    assert!(kept.as_bytes()[j] == buf[j], "C13: icon altered");
+                }
+            }
+            Ok(None) => assert!(n > L, "C13: an icon that fits was dropped"),
+            Err(_) => panic!("C13: icon made the request fail"),
+        }
+        kani::cover!(n == L);
+        kani::cover!(n == L + 1 && buf[0] >= 0xC0);
+    }
+}
+
+/// reference implementation of core's private `str::count::count_chars` (the number of bytes that are not
+/// continuation bytes); core's word-at-a-time version is intractable for CBMC, so a harness that may reach it
+/// (only if the code under test starts counting characters) uses this one instead
+pub fn count_chars_reference(s: &str) -> usize {
+    let b = s.as_bytes();
+    let mut n = 0;
+    let mut i = 0;
+    while i < b.len() {
+        if (b[i] & 0xC0) != 0x80 {
+            n += 1;
+        }
+        i += 1;
+    }
+    n
+}
+
+#[kani::proof]
+#[kani::stub(core::str::count::count_chars, count_chars_reference)]
+#[kani::unwind(10)]
+pub fn c13_k_user_icon_small_capacities() {
+    icon_case::<2>();
+    icon_case::<3>();
+    icon_case::<4>();
+}
+
 // ------------------------------------------------------------------ names (optional, truncated)
 /// A deserializer holding an optional text: `deserialize_option` reports it as `visit_some(text)` /
 /// `visit_none()`, which is what every self-describing decoder does for an optional member.
